@@ -544,6 +544,8 @@ pub fn gen(tier: &str, seed: u64) -> Vec<String> {
         let tag = if i % 2 == 0 { "KAN" } else { "LAY" };
         lines.push(mk_line(tag, &macs, &h, &[], "mix"));
     }
+    // (7) OS-level slice (`KOS` lines, generic kanata-level machinery): custom items inside macros
+    lines.extend(gen_os(tier, seed));
     lines
 }
 
@@ -696,6 +698,9 @@ fn cust_table(ser: &Ser) -> String {
 }
 
 pub fn expand(line: &str) -> String {
+    if line.starts_with("KOS ") {
+        return crate::kan::expand(line);
+    }
     let p = lay::parse_line(line);
     let tail = parse_tail(line);
     match lay::parse_cfg(&p.cfg_text) {
@@ -753,6 +758,9 @@ fn fmt_keys(v: &[u16]) -> String {
 }
 
 pub fn eval(line: &str) -> String {
+    if line.starts_with("KOS ") {
+        return crate::kan::eval_free(line);
+    }
     let p = lay::parse_line(line);
     let tail = parse_tail(line);
     if p.tag == "KAN" {
@@ -850,4 +858,455 @@ fn eval_kanata(p: &lay::Parsed, tail: &Tail) -> String {
     out.push(format!("D {} EV{ev}", digest(&mut k)));
     out.push(x);
     out.join(" ")
+}
+
+// ------------------------------------------------------------------------------------ OS-level slice
+//
+// `KOS <dbg> <hex(cfg text)> HIST <n> (p 0 y | r 0 y | t n)*`: generic kanata-level lines
+// (`kan::mk_kline`), evaluated by `kan::eval_free` / `kan::expand` and, on the model side, by
+// `Kan.run "KOS"`: the whole OS event trace (keys, mouse buttons, wheel, unicode) of macros whose
+// bodies contain custom items is compared with the kanata-level model, and judged without a model
+// by `runner/props.py: _c08_os_oracle`, which reads these comment lines of the configuration text:
+//   ;; family <name>
+//   ;; settle <n>              quiet ticks after which everything a macro did must be over
+//   ;; expect-os <y> <tokens>  the OS events an uninterrupted single activation of the macro on key
+//                              <y> must produce, in order: its spelled list (d<code> u<code> bd<n>
+//                              bu<n> U<codepoint> s<dir>,<distance>)
+//   ;; tight-custom <y>        the body of the macro on <y> has a custom item that is not followed
+//                              by a delay of >= 3 ms (computed from the body alone)
+use crate::kan::{mk_kline, KEv};
+
+#[derive(Clone, Debug)]
+pub enum O {
+    Key(&'static str),
+    Delay(u32),
+    /// output chord atom `S-x`
+    Chord(&'static str, &'static str),
+    /// `S-(…)`
+    Held(&'static str, Vec<O>),
+    /// mlft mrgt mmid
+    Btn(&'static str),
+    /// mltp mrtp mmtp
+    BtnTap(&'static str),
+    Unmod(&'static str),
+    Unshift(&'static str),
+    Uni(char),
+    /// `(mwheel-<dir> 50 120)`
+    Wheel(&'static str),
+    /// `(on-press tap-vkey v<n>)` / `(on-release tap-vkey v<n>)`
+    VTap(u8, bool),
+}
+
+const OS_VKEYS: [&str; 2] = ["9", "8"];
+const OS_MAC_KEYS: [&str; 3] = ["1", "2", "3"];
+const OS_LETTERS: [[&str; 4]; 3] = [["q", "w", "e", "r"], ["t", "y", "u", "i"], ["o", "p", "j", "k"]];
+const OS_MODS: [&str; 4] = ["S-", "C-", "A-", "RS-"];
+const OS_BKEY_ACTIONS: [&str; 7] =
+    ["mmid", "mlft", "(unmod z)", "(unicode q)", "(on-press tap-vkey v2)", "(mwheel-down 50 120)", "(unshift z)"];
+
+fn os_is_custom(o: &O) -> bool {
+    !matches!(o, O::Key(_) | O::Delay(_) | O::Chord(..) | O::Held(..))
+}
+
+fn os_item_text(o: &O) -> String {
+    match o {
+        O::Key(k) => k.to_string(),
+        O::Delay(n) => n.to_string(),
+        O::Chord(m, k) => format!("{m}{k}"),
+        O::Held(m, items) => format!("{m}({})", os_body_text(items)),
+        O::Btn(b) | O::BtnTap(b) => b.to_string(),
+        O::Unmod(k) => format!("(unmod {k})"),
+        O::Unshift(k) => format!("(unshift {k})"),
+        O::Uni(c) => format!("(unicode {c})"),
+        O::Wheel(d) => format!("(mwheel-{d} 50 120)"),
+        O::VTap(v, false) => format!("(on-press tap-vkey v{v})"),
+        O::VTap(v, true) => format!("(on-release tap-vkey v{v})"),
+    }
+}
+
+pub fn os_body_text(b: &[O]) -> String {
+    b.iter().map(os_item_text).collect::<Vec<_>>().join(" ")
+}
+
+/// the body as the flat list of sequence steps: key press / key release / delay / custom item
+#[derive(Clone, Debug, PartialEq)]
+enum Fe {
+    P,
+    R,
+    D(u32),
+    C,
+}
+
+fn os_flatten(b: &[O], out: &mut Vec<Fe>) {
+    for o in b {
+        match o {
+            O::Key(_) => out.extend([Fe::P, Fe::R]),
+            O::Delay(n) => out.push(Fe::D(*n)),
+            O::Chord(..) => out.extend([Fe::P, Fe::P, Fe::R, Fe::R]),
+            O::Held(_, items) => {
+                out.push(Fe::P);
+                os_flatten(items, out);
+                out.push(Fe::R);
+            }
+            _ => out.push(Fe::C),
+        }
+    }
+}
+
+/// a custom item that is neither the last step nor followed by a delay of at least 3 ms
+fn os_tight(b: &[O]) -> bool {
+    let mut f = vec![];
+    os_flatten(b, &mut f);
+    (0..f.len()).any(|i| f[i] == Fe::C && i + 1 < f.len() && !matches!(f[i + 1], Fe::D(n) if n >= 3))
+}
+
+fn os_ticks(b: &[O]) -> u32 {
+    b.iter()
+        .map(|o| match o {
+            O::Key(_) => 2,
+            O::Delay(n) => *n,
+            O::Chord(..) => 4,
+            O::Held(_, items) => 2 + os_ticks(items),
+            _ => 1,
+        })
+        .sum()
+}
+
+fn os_btn_num(name: &str) -> u32 {
+    match name {
+        "mlft" | "mltp" => 0,
+        "mrgt" | "mrtp" => 1,
+        "mmid" | "mmtp" => 2,
+        _ => panic!("harness: mouse atom {name}"),
+    }
+}
+
+/// the spelled list as OS events; `false` (nothing is claimed) if the body holds an unmod/unshift
+/// item under a held modifier group (what the OS sees then includes the lifting of the group's
+/// modifiers) or presses a modifier it already holds (the OS cannot see a key go down twice)
+fn os_expect(b: &[O], held: &mut Vec<&'static str>, out: &mut Vec<String>) -> bool {
+    let mut ok = true;
+    for o in b {
+        match o {
+            O::Key(k) => out.extend([format!("d{}", code(k)), format!("u{}", code(k))]),
+            O::Delay(_) => {}
+            O::Chord(m, k) => {
+                if held.contains(m) {
+                    ok = false;
+                }
+                let (mc, kc) = (mod_code(m), code(k));
+                out.extend([format!("d{mc}"), format!("d{kc}"), format!("u{kc}"), format!("u{mc}")]);
+            }
+            O::Held(m, items) => {
+                if held.contains(m) {
+                    ok = false;
+                }
+                out.push(format!("d{}", mod_code(m)));
+                held.push(*m);
+                ok &= os_expect(items, held, out);
+                held.pop();
+                out.push(format!("u{}", mod_code(m)));
+            }
+            O::Btn(x) | O::BtnTap(x) => out.extend([format!("bd{}", os_btn_num(x)), format!("bu{}", os_btn_num(x))]),
+            O::Unmod(k) | O::Unshift(k) => {
+                if !held.is_empty() {
+                    ok = false;
+                }
+                out.extend([format!("d{}", code(k)), format!("u{}", code(k))]);
+            }
+            O::Uni(c) => out.push(format!("U{}", *c as u32)),
+            O::Wheel(d) => out.push(format!("s{},120", ["up", "down", "left", "right"].iter().position(|x| x == d).unwrap())),
+            O::VTap(v, _) => {
+                let c = code(OS_VKEYS[*v as usize - 1]);
+                out.extend([format!("d{c}"), format!("u{c}")]);
+            }
+        }
+    }
+    ok
+}
+
+fn os_custom_atom(r: &mut Rng, letters: &[&'static str]) -> O {
+    match r.below(10) {
+        0 | 1 => O::Btn(*r.pick(&["mlft", "mrgt", "mmid"])),
+        2 => O::BtnTap(*r.pick(&["mltp", "mrtp", "mmtp"])),
+        3 | 4 => O::Unmod(*r.pick(letters)),
+        5 => O::Unshift(*r.pick(letters)),
+        6 => O::Uni(*r.pick(&['x', 'é', 'λ'])),
+        7 => O::Wheel(*r.pick(&["up", "down", "left", "right"])),
+        _ => O::VTap(r.range(1, 2) as u8, r.chance(1, 4)),
+    }
+}
+
+/// `spaced`: every custom item is followed by a 3 ms delay
+fn os_gen_body(r: &mut Rng, letters: &[&'static str], n: usize, depth: u32, spaced: bool) -> Vec<O> {
+    let mut v = vec![];
+    for _ in 0..n {
+        let o = match r.below(20) {
+            0..=3 => O::Key(*r.pick(letters)),
+            4 => O::Delay(r.range(1, 4) as u32),
+            5 => O::Chord(*r.pick(&OS_MODS), *r.pick(letters)),
+            6 | 7 if depth < 2 => {
+                let k = r.range(1, 3) as usize;
+                O::Held(*r.pick(&OS_MODS), os_gen_body(r, letters, k, depth + 1, spaced))
+            }
+            8 => O::Delay(r.range(5, 12) as u32),
+            9 => O::Key(*r.pick(letters)),
+            _ => os_custom_atom(r, letters),
+        };
+        let c = os_is_custom(&o);
+        v.push(o);
+        if c && spaced {
+            v.push(O::Delay(3));
+        }
+    }
+    v
+}
+
+fn os_has_custom(b: &[O]) -> bool {
+    b.iter().any(|o| match o {
+        O::Held(_, i) => os_has_custom(i),
+        o => os_is_custom(o),
+    })
+}
+
+fn os_body(r: &mut Rng, letters: &[&'static str], n: usize, spaced: bool) -> Vec<O> {
+    let mut b = os_gen_body(r, letters, n, 0, spaced);
+    if !os_has_custom(&b) {
+        let at = r.below(b.len() as u64 + 1) as usize;
+        if spaced {
+            b.insert(at, O::Delay(3));
+        }
+        b.insert(at, os_custom_atom(r, letters));
+    }
+    b
+}
+
+#[derive(Clone, Debug)]
+pub struct OMac {
+    /// index into `FORMS` / `FORMS_REPEAT`
+    pub form: usize,
+    pub rep: bool,
+    pub body: Vec<O>,
+}
+
+impl OMac {
+    fn text(&self) -> String {
+        let name = if self.rep { FORMS_REPEAT[self.form] } else { FORMS[self.form] };
+        format!("({name} {})", os_body_text(&self.body))
+    }
+}
+
+/// macros on keys 1 2 3, a plain key `a`, a key `b` with a custom action of its own, a plain key `c`
+fn os_cfg(fam: &str, macs: &[OMac], bkey: &str) -> String {
+    let dur: u32 = macs.iter().map(|m| os_ticks(&m.body) + 4).sum();
+    let mut s = format!(";; family {fam}\n;; settle {}\n", 2 * dur + 30);
+    for (j, m) in macs.iter().enumerate() {
+        let y = code(OS_MAC_KEYS[j]);
+        // plain `macro` and `macro-cancel-on-press` play their list in full unless interrupted
+        if !m.rep && (m.form == 0 || m.form == 2) {
+            let mut toks = vec![];
+            if os_expect(&m.body, &mut vec![], &mut toks) {
+                s.push_str(&format!(";; expect-os {y} {}\n", toks.join(" ")));
+            }
+        }
+        if os_tight(&m.body) {
+            s.push_str(&format!(";; tight-custom {y}\n"));
+        }
+    }
+    s.push_str(&format!("(defvirtualkeys v1 {} v2 {})\n(defsrc", OS_VKEYS[0], OS_VKEYS[1]));
+    for j in 0..macs.len() {
+        s.push_str(&format!(" {}", OS_MAC_KEYS[j]));
+    }
+    s.push_str(" a b c)\n(deflayer l0");
+    for m in macs {
+        s.push_str(&format!(" {}", m.text()));
+    }
+    s.push_str(&format!(" a {bkey} c)\n"));
+    s
+}
+
+fn os_settle(macs: &[OMac]) -> u32 {
+    let dur: u32 = macs.iter().map(|m| os_ticks(&m.body) + 4).sum();
+    2 * dur + 30
+}
+
+fn kp(y: u16) -> KEv {
+    KEv::L(HEv::Press(0, y))
+}
+fn kr(y: u16) -> KEv {
+    KEv::L(HEv::Release(0, y))
+}
+fn kt(h: &mut Vec<KEv>, n: u32) {
+    if n > 0 {
+        h.push(KEv::L(HEv::Tick(n)));
+    }
+}
+
+pub fn gen_os(tier: &str, seed: u64) -> Vec<String> {
+    let mut r = Rng::new(seed ^ 0xC08_05);
+    let thorough = tier == "thorough";
+    let scale = if thorough { 8 } else { 1 };
+    let mut lines = vec![];
+    let mk = |j: usize| code(OS_MAC_KEYS[j]);
+    let (ka, kb) = (code("a"), code("b"));
+    let line = |fam: &str, macs: &[OMac], bkey: &str, h: &[KEv]| mk_kline("KOS", false, &os_cfg(fam, macs, bkey), h);
+    let tapped = |macs: &[OMac], hold: u32| {
+        let mut h = vec![kp(code(OS_MAC_KEYS[0]))];
+        kt(&mut h, hold);
+        h.push(kr(code(OS_MAC_KEYS[0])));
+        kt(&mut h, os_settle(macs) + 5);
+        h
+    };
+
+    // (a) exhaustive small bodies in the plain form, one activation: every atom alone, every pair,
+    //     under a held modifier, and triples of custom items followed by a key
+    let atoms: Vec<O> = vec![
+        O::Key("q"), O::Btn("mlft"), O::BtnTap("mrtp"), O::Unmod("w"), O::Unshift("e"), O::Uni('é'), O::Wheel("up"), O::Wheel("left"),
+        O::VTap(1, false), O::VTap(2, true), O::Delay(3),
+    ];
+    let mut small: Vec<Vec<O>> = vec![];
+    for a in &atoms {
+        small.push(vec![a.clone()]);
+        small.push(vec![O::Held("S-", vec![a.clone()])]);
+        small.push(vec![O::Held("C-", vec![a.clone()]), O::Key("r")]);
+        for b in &atoms {
+            small.push(vec![a.clone(), b.clone()]);
+        }
+    }
+    let cust3 = [O::Btn("mlft"), O::Uni('λ'), O::VTap(1, false)];
+    for a in &cust3 {
+        for b in &cust3 {
+            for c in &cust3 {
+                small.push(vec![a.clone(), b.clone(), c.clone(), O::Key("q")]);
+            }
+        }
+    }
+    for body in &small {
+        let macs = [OMac { form: 0, rep: false, body: body.clone() }];
+        lines.push(line("os-small", &macs, "mmid", &tapped(&macs, 2)));
+    }
+
+    // (b) one random macro, all eight list actions, one activation (tapped / held a little)
+    for i in 0..400 * scale {
+        let n = r.range(1, 6) as usize;
+        let spaced = i % 3 != 0;
+        let body = os_body(&mut r, &OS_LETTERS[0], n, spaced);
+        let (form, rep) = if i % 2 == 0 { (0, false) } else { (r.below(4) as usize, r.chance(1, 2)) };
+        let macs = [OMac { form, rep, body }];
+        lines.push(line("os-single", &macs, "mmid", &tapped(&macs, r.range(0, 3) as u32)));
+    }
+
+    // (c) the repeating forms held over several runs
+    for _ in 0..150 * scale {
+        let n = r.range(1, 4) as usize;
+        let spaced = r.chance(1, 2);
+        let body = os_body(&mut r, &OS_LETTERS[0], n, spaced);
+        let dur = os_ticks(&body) + 1;
+        let macs = [OMac { form: r.below(4) as usize, rep: true, body }];
+        let hold = r.range(1, 3) as u32 * dur + r.range(0, dur as u64) as u32;
+        lines.push(line("os-repeat", &macs, "mmid", &tapped(&macs, hold)));
+    }
+
+    // (d) cancellation at every tick offset: release of a release-cancel macro, another key pressed
+    //     during a cancel-on-press macro
+    for i in 0..(if thorough { 60 } else { 10 }) {
+        let n = r.range(2, 4) as usize;
+        let body = os_body(&mut r, &OS_LETTERS[0], n, i % 2 == 0);
+        let dur = os_ticks(&body);
+        for rep in [false, true] {
+            for at in 0..=(dur + 3) {
+                let macs = [OMac { form: if i % 3 == 0 { 3 } else { 1 }, rep, body: body.clone() }];
+                lines.push(line("os-cancel-release", &macs, "mmid", &tapped(&macs, at)));
+                let macs = [OMac { form: if i % 3 == 1 { 3 } else { 2 }, rep, body: body.clone() }];
+                let mut h = vec![kp(mk(0))];
+                kt(&mut h, 1);
+                h.push(kr(mk(0)));
+                kt(&mut h, at);
+                h.push(kp(ka));
+                kt(&mut h, 3);
+                h.push(kr(ka));
+                kt(&mut h, os_settle(&macs) + 5);
+                lines.push(line("os-cancel-press", &macs, "mmid", &h));
+            }
+        }
+    }
+
+    // (e) two macros overlapping at every offset, and random histories over 2-3 macros, the plain
+    //     key and the custom key
+    for i in 0..(if thorough { 30 } else { 6 }) {
+        let (n0, n1) = (r.range(1, 3) as usize, r.range(1, 3) as usize);
+        let b0 = os_body(&mut r, &OS_LETTERS[0], n0, i % 2 == 0);
+        let b1 = os_body(&mut r, &OS_LETTERS[1], n1, i % 2 == 0);
+        let dur = os_ticks(&b0);
+        let macs = [OMac { form: 0, rep: false, body: b0 }, OMac { form: if i % 3 == 0 { 1 } else { 0 }, rep: i % 3 == 2, body: b1 }];
+        for g in 0..=(dur + 2) {
+            let mut h = vec![kp(mk(0))];
+            kt(&mut h, g);
+            h.push(kp(mk(1)));
+            kt(&mut h, 1);
+            h.push(kr(mk(0)));
+            kt(&mut h, 2);
+            h.push(kr(mk(1)));
+            kt(&mut h, os_settle(&macs) + 5);
+            lines.push(line("os-overlap", &macs, "mmid", &h));
+        }
+    }
+    for i in 0..200 * scale {
+        let k = r.range(2, 3) as usize;
+        let mut macs = vec![];
+        for j in 0..k {
+            let n = r.range(1, 4) as usize;
+            let body = os_body(&mut r, &OS_LETTERS[j], n, i % 2 == 0);
+            macs.push(OMac { form: r.below(4) as usize, rep: r.chance(1, 4), body });
+        }
+        let mut keys: Vec<u16> = (0..k).map(mk).collect();
+        keys.extend([ka, kb]);
+        let n_ev = r.range(2, 8) as usize;
+        let hh = crate::cfggen::consistent_history(&mut r, &keys, n_ev, &[0, 1, 1, 2, 3, 5], os_settle(&macs) + 5);
+        let h: Vec<KEv> = hh.into_iter().map(KEv::L).collect();
+        lines.push(line("os-mix", &macs, *r.pick(&OS_BKEY_ACTIONS), &h));
+    }
+
+    // (f) a key with a custom action of its own pressed / released at every tick offset of the
+    //     macro, so that two custom events fall into one tick
+    for i in 0..(if thorough { 56 } else { 8 }) {
+        let n = r.range(1, 3) as usize;
+        let body = os_body(&mut r, &OS_LETTERS[0], n, i % 2 == 1);
+        let dur = os_ticks(&body);
+        let bkey = OS_BKEY_ACTIONS[i % OS_BKEY_ACTIONS.len()];
+        let macs = [OMac { form: if i % 4 == 3 { 2 } else { 0 }, rep: false, body }];
+        let tail = os_settle(&macs) + 5;
+        for at in 0..=(dur + 3) {
+            // pressed `at` ticks into the macro, released a tick later
+            let mut h = vec![kp(mk(0))];
+            kt(&mut h, 1);
+            h.push(kr(mk(0)));
+            kt(&mut h, at);
+            h.push(kp(kb));
+            kt(&mut h, 1);
+            h.push(kr(kb));
+            kt(&mut h, tail);
+            lines.push(line("os-coincide", &macs, bkey, &h));
+            // held from before, released `at` ticks into the macro
+            let mut h = vec![kp(kb)];
+            kt(&mut h, 2);
+            h.push(kp(mk(0)));
+            kt(&mut h, 1);
+            h.push(kr(mk(0)));
+            kt(&mut h, at);
+            h.push(kr(kb));
+            kt(&mut h, tail);
+            lines.push(line("os-coincide", &macs, bkey, &h));
+            // press and release queued together
+            let mut h = vec![kp(mk(0))];
+            kt(&mut h, 1);
+            h.push(kr(mk(0)));
+            kt(&mut h, at);
+            h.push(kp(kb));
+            h.push(kr(kb));
+            kt(&mut h, tail);
+            lines.push(line("os-coincide", &macs, bkey, &h));
+        }
+    }
+    lines
 }
